@@ -236,7 +236,7 @@ def h_assign(n: int, m: int, k: int, s1: int, r1: int, s2: int, r2: int):
 
 
 def h_replace(t: str, old: str, n: int, cnt: int, k: int, s1: int, r1: int, s2: int, r2: int, form: int):
-    """form 0: plain str replacement 'XY'; 1: AnsiString 'XY' with red on X; 2: AnsiStr('XY', 'bold'); 3: empty str; 4: expandtabs-like 1 char."""
+    """form 0: plain str replacement 'XY'; 1: AnsiString 'XY' with red on X; 2: AnsiStr('XY', 'red', 'blue', '[99'); 3: empty str; 4: expandtabs-like 1 char."""
     if len(t) != n or ESC in t or old == '' or len(old) > 2:
         return None
     s = styled(t, n, k, s1, r1, s2, r2)
@@ -250,8 +250,8 @@ def h_replace(t: str, old: str, n: int, cnt: int, k: int, s1: int, r1: int, s2: 
         new.apply_formatting('red', 0, 1)       # red is also in the receivers' alphabet: equal settings at the seam
         new_tab = [['31'], []]
     elif f == 2:
-        new = AnsiStr('XY', 'bold')
-        new_tab = [['1'], ['1']]
+        new = AnsiStr('XY', 'red', 'blue', '[99')      # stacked conflicting + unknown verbatim: must survive as they are
+        new_tab = [['31', '34', '99'], ['31', '34', '99']]
     else:
         new = new_text
         new_tab = None
@@ -348,6 +348,9 @@ def obligations(tier):
         obs.append(Ob('assign/n%d' % n, h_assign, dict(n=n, k=2 if n else 0, **({} if n else dict(s1=0, r1=0, **z1))),
                       need=('longer',) + (('shorter',) if n else ()), budget=600,
                       bounds='n=%d -> 0..n+2, 2 apply steps' % n, kinds=KINDS))
+    for r1 in range(6):
+        obs.append(Ob('replace/n3/dup/r%d' % r1, h_replace, dict(n=3, k=2, form=0, s1=0, s2=0, r1=r1), need=('replaced',), budget=1500, per_path=40,
+                      bounds='text length 3, the same setting applied twice (nested / overlapping ranges), plain replacement', kinds=KINDS))
     for n in ns:
         for form in range(5):
             obs.append(Ob('replace/n%d/f%d' % (n, form), h_replace, dict(n=n, k=1, form=form, **z1),
